@@ -215,7 +215,7 @@ CtlStop == /\ app = "cancelled" /\ app' = "stopped"
                            ELSE IF Defect = "cancelDefault" THEN BumpCancel("app") ELSE cancelled
            /\ UNCHANGED <<cur, th, isubs, wsubs, fed, started, cancelK, dlv, used>>
 \* HOOK (state injection, stands for what a protocol switch leaves behind): mutable.cancelWrappedCtx = cancel of token k
-SetCancel(k) == /\ cancelK' = k
+SetCancel(k) == /\ app # "stopped" /\ cancelK' = k
                 /\ UNCHANGED <<cur, th, isubs, wsubs, fed, started, app, cancelled, dlv, used>>
 \* ENVIRONMENT: implementation i reaches consensus on duty d and calls its subscribers
 Got(i) == IF Defect = "deliverTwice" THEN isubs[i] \o isubs[i] ELSE isubs[i]
@@ -420,10 +420,10 @@ PrevCancelled == ~Switching => \A k \in DOMAIN started : LET i == started[k].i I
                     (started[k].ctx = i /\ i # Default /\ i # cur) => CancelCount(i) >= 1
 \* controller.Start starts the default implementation with the application's context, and nothing else
 StartsDefault == \A k \in DOMAIN started : started[k].ctx = "app" => started[k].i = Default
-\* after the application's context ended and the controller's goroutine ran, the wrapped context is cancelled
-StoppedCancels == app = "stopped" /\ cancelK # "-" => CancelCount(cancelK) >= 1
-CtlSafety == InFlightInCurrent /\ DeliverNoDup /\ SetContract /\ DefaultNeverCancelled /\ CancelAtMostOnce /\ StartsDefault
-             /\ StoppedCancels
+\* when the application's context has ended, the controller's goroutine cancels the wrapped context (action property)
+StopCancels == [][(app = "cancelled" /\ app' = "stopped" /\ cancelK # "-") =>
+                    (cancelK \in DOMAIN cancelled' /\ cancelled'[cancelK] = CancelCount(cancelK) + 1)]_cvars
+CtlSafety == InFlightInCurrent /\ DeliverNoDup /\ SetContract /\ DefaultNeverCancelled /\ StartsDefault
 
 \* the underlying run of a duty is started (passes the deadliner) at most once
 OneEffectiveRun == \A d \in Duties : Cardinality({x \in eff : x[2] = d}) <= 1
